@@ -37,6 +37,7 @@ REACH_MIN = {"bit_flips": {"quick": 80964, "thorough": 1064988}, "bursts": {"qui
              "truncations": {"quick": 12236, "thorough": 160950}, "arbitrary": {"quick": 12320, "thorough": 162055},
              "hostile_counts": {"quick": 4000, "thorough": 52615},
              "hostile_pairs": {"quick": 20000, "thorough": 1000000},
+             "truncations_inside_fetch_responses": {"quick": 8000, "thorough": 100000},
              "hostile_field_pairs": {"quick": 40000, "thorough": 800000},
              "consumer_oversized_runs": {"quick": 26, "thorough": 342},
              "inner_message_alterations": {"quick": 2000, "thorough": 40000}}
@@ -236,6 +237,57 @@ def run_corrupt(spec, res):
     res.hit("truncations", nt)
     res.ob("truncation_exact", nt)
     res.n_sub += nt
+    # the same cut sets as they reach a client: as the record data of a partition that is NOT the last one of a fetch
+    # response (a broker cuts every partition's data at max_bytes) - what follows in the response is not part of it
+    tail_set = R.encode_message_set([(7, R.encode_message(b"tk", b"tail-value" * 3, 0, 0, None)),
+                                     (8, R.encode_message(None, b"t2", 0, 0, None))])
+    ne = 0
+    step = 1 if len(data) <= 160 else 3
+    for cut in range(0, len(data) + 1, step):
+        direct, dexc = decode_collect(K, data[:cut])
+        for ver in (0, 2):
+            shape = (cut + ver) % 3
+            if shape == 0:
+                topics = [("ta", [(0, 0, 50, data[:cut]), (1, 0, 9, tail_set)])]
+            elif shape == 1:
+                topics = [("ta", [(0, 0, 50, data[:cut])]), ("tb", [(4, 0, 9, tail_set)])]
+            else:
+                topics = [("ta", [(3, 0, 9, tail_set), (0, 0, 50, data[:cut]), (1, 0, 9, tail_set)])]
+            resp = R.resp_fetch(5, topics, version=ver)
+            got_e, exc_e, others_ok = [], None, True
+            try:
+                for fr in K.decode_fetch_response(resp, api_version=ver):
+                    if fr.partition == 0 and fr.topic == "ta":
+                        try:
+                            for om in fr.messages:
+                                m = om.message
+                                got_e.append((om.offset, m.magic, m.attributes, m.key, m.value, m.timestamp))
+                        except Exception as e:  # noqa
+                            exc_e = e
+                    else:
+                        try:
+                            others = [(om.offset, om.message.value) for om in fr.messages]
+                        except Exception:
+                            others = None
+                        if others != [(7, b"tail-value" * 3), (8, b"t2")]:
+                            others_ok = False
+            except Exception as e:  # noqa
+                exc_e = e
+            ne += 1
+            if type(exc_e) is not type(dexc) or got_e != direct:
+                res.violate("truncation/embedded-set-decodes-differently/%s" % (type(exc_e).__name__ if exc_e else
+                                                                                 "no-exception"),
+                            "a cut message set decodes to %d message(s)%s on its own, but to %d%s as the data of a "
+                            "partition that other data follows in a fetch v%d response" % (
+                                len(direct), " then " + type(dexc).__name__ if dexc else "", len(got_e),
+                                " then " + type(exc_e).__name__ if exc_e else "", ver), cut=cut)
+            if not others_ok:
+                res.violate("truncation/neighbouring-partition-disturbed", "the partition following (or preceding) "
+                            "a cut message set in a fetch v%d response did not decode to its own messages" % ver,
+                            cut=cut)
+    res.hit("truncations_inside_fetch_responses", ne)
+    res.ob("truncation_exact_inside_fetch_response", ne)
+    res.n_sub += ne
     # damage INSIDE a compressed wrapper: one inner message altered before compression, the wrapper's own checksum
     # computed over the result and therefore valid -- only the inner message's checksum can tell
     ni = 0
